@@ -344,6 +344,15 @@ impl<A: Clone + 'static> Lazy<A> {
         *me.gen.borrow_mut() = Some(g);
         me
     }
+    /// eager variant (no coroutine) for sources that are finite and free of effects
+    fn eager(produce: impl FnOnce(&dyn Fn(A) -> Ctl) -> Ctl) -> Rc<Self> {
+        let items = RefCell::new(vec![]);
+        let r = produce(&|a| {
+            items.borrow_mut().push(a);
+            Ctl::Cont
+        });
+        Rc::new(Lazy { items, end: RefCell::new(Some(r)), gen: RefCell::new(None) })
+    }
     /// i-th element, or the terminal control value of the producer (Cont = regular end)
     fn get(&self, i: usize) -> Result<A, Ctl> {
         loop {
@@ -703,6 +712,9 @@ impl<'s> M<'s> {
 
     /// lazily memoised list of environments bound by `xs as pat`
     fn source(&self, xs: &T, pat: &Pat, env: &Env, v: &RVal) -> Rc<Lazy<Env>> {
+        if is_simple(xs) && pat_simple(pat) {
+            return Lazy::eager(|emit| self.vals(xs, env, v, &|y| self.bind_pat(pat, &y, env, env, &|e| emit(e))));
+        }
         let (xs, pat, env, v) = (xs.clone(), pat.clone(), env.clone(), v.clone());
         // SAFETY of the 'static requirement: the coroutine only runs while `self.st` is alive
         // (it is resumed from `get`, called below with `self` borrowed) — we pass a raw pointer.
@@ -1047,14 +1059,23 @@ impl<'s> M<'s> {
                 },
             },
             T::Path(head, parts) => {
-                // indices are evaluated on the original input; every combination updates in turn
-                let combos = RefCell::new(vec![]);
-                go!(self.path_parts(parts, 0, vec![], env, v, &|eps| {
-                    combos.borrow_mut().push(eps.to_vec());
-                    Ctl::Cont
-                }));
-                let combos = combos.into_inner();
-                self.upd(head, env, v, &|x, k2| self.upd_combos(&combos, 0, parts, x, u, k2), k)
+                // indices are evaluated on the original input; every combination updates in turn:
+                // (x1 as $x | f[$x]) |= u | (x2 as $x | f[$x]) |= u | ...
+                let simple = parts.iter().all(|(p, _)| match p {
+                    Part::Index(i) => is_simple(i),
+                    Part::Range(x, y) => x.as_ref().map_or(true, is_simple) && y.as_ref().map_or(true, is_simple),
+                });
+                let src: Rc<Lazy<Vec<EP>>> = if simple {
+                    Lazy::eager(|emit| self.path_parts(parts, 0, vec![], env, v, &|eps| emit(eps.to_vec())))
+                } else {
+                    let (parts2, env2, v2) = (parts.clone(), env.clone(), v.clone());
+                    let stp = self.st as *const St;
+                    Lazy::new(move |emit| {
+                        let m = M { st: unsafe { &*stp } };
+                        m.path_parts(&parts2, 0, vec![], &env2, &v2, &|eps| emit(eps.to_vec()))
+                    })
+                };
+                self.upd_combos(&src, 0, head, env, parts, v, u, k)
             }
             T::Fold(name, xs, pat, args) => {
                 let (init, update, proj) = match (name.as_str(), &args[..]) {
@@ -1130,10 +1151,12 @@ impl<'s> M<'s> {
         }
     }
 
-    fn upd_combos(&self, combos: &[Vec<EP>], i: usize, parts: &[(Part, bool)], v: &RVal, u: U, k: KV) -> Ctl {
-        match combos.get(i) {
-            None => k(v.clone()),
-            Some(eps) => self.upd_parts(eps, parts, 0, v, u, &|y| self.upd_combos(combos, i + 1, parts, &y, u, k)),
+    #[allow(clippy::too_many_arguments)]
+    fn upd_combos(&self, src: &Rc<Lazy<Vec<EP>>>, i: usize, head: &T, env: &Env, parts: &[(Part, bool)], v: &RVal, u: U, k: KV) -> Ctl {
+        match src.get(i) {
+            Err(Ctl::Cont) => k(v.clone()),
+            Err(c) => c,
+            Ok(eps) => self.upd(head, env, v, &|x, k2| self.upd_parts(&eps, parts, 0, x, u, k2), &|y| self.upd_combos(src, i + 1, head, env, parts, &y, u, k)),
         }
     }
 
@@ -1294,6 +1317,41 @@ impl<'s> M<'s> {
             }
             _ => fail(),
         }
+    }
+}
+
+/// finite, effect-free terms (no calls to definitions, no recursion, no effect natives):
+/// evaluating them eagerly is indistinguishable from evaluating them on demand
+fn is_simple(t: &T) -> bool {
+    match t {
+        T::Id | T::Num(_) | T::Var(_) | T::Arr(None) | T::Break(_) => true,
+        T::Recurse | T::Def(..) | T::Fold(..) | T::Label(..) => false,
+        T::Str(_, parts) => parts.iter().all(|p| match p {
+            SP::S(_) => true,
+            SP::I(t) => is_simple(t),
+        }),
+        T::Arr(Some(f)) | T::Neg(f) => is_simple(f),
+        T::Obj(kvs) => kvs.iter().all(|(k, v)| is_simple(k) && v.as_ref().map_or(true, is_simple)),
+        T::Bin(l, _, r) => is_simple(l) && is_simple(r),
+        T::As(l, p, r) => is_simple(l) && pat_simple(p) && is_simple(r),
+        T::Try(f, c) => is_simple(f) && c.as_ref().map_or(true, |c| is_simple(c)),
+        T::If(its, e) => its.iter().all(|(c, t)| is_simple(c) && is_simple(t)) && e.as_ref().map_or(true, |e| is_simple(e)),
+        T::Call(n, a) => matches!(n.as_str(), "empty" | "error" | "null" | "true" | "false" | "length" | "type" | "keys_unsorted" | "tojson" | "has") && a.iter().all(is_simple),
+        T::Path(h, parts) => {
+            is_simple(h)
+                && parts.iter().all(|(p, _)| match p {
+                    Part::Index(i) => is_simple(i),
+                    Part::Range(x, y) => x.as_ref().map_or(true, is_simple) && y.as_ref().map_or(true, is_simple),
+                })
+        }
+    }
+}
+
+fn pat_simple(p: &Pat) -> bool {
+    match p {
+        Pat::Var(_) => true,
+        Pat::Arr(ps) => ps.iter().all(pat_simple),
+        Pat::Obj(es) => es.iter().all(|(k, p)| is_simple(k) && pat_simple(p)),
     }
 }
 
